@@ -9,7 +9,7 @@ from analysis import analyse
 import props
 ZERO = {"TS-6", "GUARD-1"}
 # anchor kinds that exist only for one of several accepted idioms (the verdict as `any` has a search closure, as a loop it has none)
-OPTIONAL = {("ITER-1", "search-closure"), ("ITER-1", "pure-search-exit"), ("ITER-1", "worklist-resumed")}
+OPTIONAL = {("ITER-1", "search-closure"), ("ITER-1", "pure-search-exit"), ("ITER-1", "worklist-resumed"), ("ITER-1", "exhausted-at-return")}
 td = tempfile.mkdtemp(prefix="verif-floors-")
 counts = {}
 seen = set()
